@@ -569,4 +569,5 @@ RULES = [
 	('18.i', 'BOLT-12 metadata HMAC: builder and verifier leave the signing key out under the same predicate only', r18i),
 	('18.j', 'unsigned BOLT-12 objects parsed from bytes: the tagged hash covers the experimental records (hash before split)', r18j),
 	('18.w', 'no length / count is added to or multiplied in an 8/16-bit type and widened afterwards (wrap-around at the top of the range; rules/provenance.py)', lambda F: provenance.narrow_for_property(F, 'C18', '18.w')),
+	('18.z', 'named protocol / policy constants in this property\'s files have their reviewed values (rules/provenance.py)', lambda F: provenance.consts_for_property(F, 'C18', '18.z')),
 ]
